@@ -884,7 +884,12 @@ class Engine(
             case ColumnInContainer(item=item, container=container):
                 sql_item = self.expect_column_scalar(self.convert_column_expression(item, columns_available))
                 match container:
-                    case ColumnRangeLiteral(value=range(start=start, stop=stop_exclusive, step=step)):
+                    case ColumnRangeLiteral(value=value):
+                        if value.step < 0:
+                            # Same members in ascending order; the logic below
+                            # assumes a positive step.
+                            value = value[::-1]
+                        start, stop_exclusive, step = value.start, value.stop, value.step
                         # The convert_column_literal calls below should just
                         # call sqlalchemy.sql.literal(int), which would also
                         # happen automatically internal to any of the other
